@@ -364,6 +364,9 @@ def run(ctx):
                        "transform; every offset of small subnets through crafted seeds; serial vs 2-32 concurrent selectors. "
                        "A case is non-trivial if hash-distinct; the histogram lists op/libver/outcome classes")
     ctx.coq_props()
+    rc, out = ctx.coq_make(["C14/Examples.vo"])
+    if rc != 0:
+        ctx.broken("examples", "non-vacuity examples (coq/C14/Examples.v) no longer check: " + out[-500:])
     cases, exh, conc = gen_cases(ctx)
     js = [to_json(c) for c in cases + conc]
     race = ctx.tier == "thorough" and os.environ.get("VERIF_NO_RACE") != "1"
